@@ -133,7 +133,10 @@ def timer_survives(c):
         while len(seen) < len(kinds) + 2 and time.time() - t0 < 5:
             time.sleep(0.01)
         alive = sysm.deep.poll.timer.thread.is_alive()
-        sysm.deep.poll.shutdown()
+        try:
+            sysm.deep.poll.shutdown()
+        except BaseException:      # e.g. the timer thread was never started: judged below (alive is False)
+            pass
     finally:
         sysm.deep.task_handler._pool.shutdown(wait=True)
     c.traces_validated += 1
